@@ -181,13 +181,13 @@ def execute(case):
         y = lib(lambda: x.detach())
         if same_meta(y, "detach", DT[dt]):
             ck.require(all(not c.requires_grad for c in y.cores), "detach_requires_grad", "detached cores still require grad")
-            ck.require(core.bit_equal(dense(y.cores), xd), "detach_value", "detach changed the value")
+            ck.require((len(y.cores) == len(snap) and all(a.shape == b.shape and torch.equal(a.detach().resolve_conj(), b) for a, b in zip(y.cores, snap))), "detach_value", "detach changed the value")
             meta_independent(y, "detach")
         ck.nontrivial = big and src == "grad"
     elif op in ("to_none", "cpu"):
         y = lib(lambda: x.to() if op == "to_none" else x.cpu())
         if same_meta(y, op, DT[dt]):
-            ck.require(core.bit_equal(dense(y.cores), xd), op + "_value", "%s changed the value" % op)
+            ck.require((len(y.cores) == len(snap) and all(a.shape == b.shape and torch.equal(a.detach().resolve_conj(), b) for a, b in zip(y.cores, snap))), op + "_value", "%s changed the value" % op)
             meta_independent(y, op)
         ck.nontrivial = big
     elif op == "to_dtype":
